@@ -135,7 +135,9 @@ def note_text(features, multiline: bool = True):
 
 
 def raw_text(features, multiline: bool):
-    one = line_text(features, 0)
+    # values that look like another kind of literal (they are strings all the same)
+    alike = st.sampled_from(['true', 'false', 'null', 'NULL', 'True', '123', '1.5', '0', '`x`', '#fff', 'pk', 'not null'])
+    one = st.one_of(line_text(features, 0), line_text(features, 0), line_text(features, 0), alike)
     if not multiline:
         return one
     many = st.lists(line_text(features, 0, 12), min_size=2, max_size=4).map('\n'.join)
